@@ -19,6 +19,7 @@ package engine
 import (
 	"encoding/base64"
 	"path"
+	"slices"
 	"strings"
 
 	"github.com/gobwas/glob"
@@ -87,6 +88,17 @@ func (f files) Glob(pattern string) files {
 	return nf
 }
 
+// sortedNames returns the file names in sorted order, so that when two files
+// share a base name the same one wins on every render.
+func (f files) sortedNames() []string {
+	names := make([]string, 0, len(f))
+	for name := range f {
+		names = append(names, name)
+	}
+	slices.Sort(names)
+	return names
+}
+
 // AsConfig turns a Files group and flattens it to a YAML map suitable for
 // including in the 'data' section of a Kubernetes ConfigMap definition.
 // Duplicate keys will be overwritten, so be aware that your file names
@@ -110,8 +122,8 @@ func (f files) AsConfig() string {
 	m := make(map[string]string)
 
 	// Explicitly convert to strings, and file names
-	for k, v := range f {
-		m[path.Base(k)] = string(v)
+	for _, k := range f.sortedNames() {
+		m[path.Base(k)] = string(f[k])
 	}
 
 	return toYAML(m)
@@ -139,8 +151,8 @@ func (f files) AsSecrets() string {
 
 	m := make(map[string]string)
 
-	for k, v := range f {
-		m[path.Base(k)] = base64.StdEncoding.EncodeToString(v)
+	for _, k := range f.sortedNames() {
+		m[path.Base(k)] = base64.StdEncoding.EncodeToString(f[k])
 	}
 
 	return toYAML(m)
